@@ -202,6 +202,8 @@ def run_cases(ctx, cases, drv, with_predicate=True, fields=realenc.FIELDS):
             optic = lensgen.build_case(case)
         except Exception as e:  # noqa
             ctx.count('build_error:' + type(e).__name__)
+            if 'sample' in case:
+                ctx.fail('every bundled sample design can be built', dict(case), type(e).__name__, 'an Optic')
             continue
         wl = optic.wavelengths.get_wavelengths()
         w = wl[case.get('wi', 0) % len(wl)] if case.get('wi', 0) >= 0 else wl[-1]
@@ -209,6 +211,12 @@ def run_cases(ctx, cases, drv, with_predicate=True, fields=realenc.FIELDS):
         rec = trace_case(optic, case['Hy'], px, py, w)
         if isinstance(rec, tuple):
             ctx.count('impl_error:' + rec[1])
+            if 'sample' in case:
+                # the property quantifies over all bundled sample designs: one that cannot be traced at all has no
+                # valid ray (the defect F16, repaired: RealRays.propagate asked a medium without k table for k)
+                ctx.fail('every bundled sample design can be ray-traced (C02 quantifies over all bundled samples)',
+                         {k: v for k, v in case.items()}, rec[1], 'per-surface ray records',
+                         finding_key='medium-without-k-raises')
             keep.append((case, optic, w, rec, None))
             continue
         try:
